@@ -1,9 +1,11 @@
 package checks
 
 import (
+	"bytes"
 	"fmt"
 	"strings"
 	"sync"
+	"sync/atomic"
 
 	"verif/internal/core"
 	"verif/internal/sched"
@@ -164,6 +166,81 @@ func runC13(env *core.Env) {
 	}
 	add("reader||new-task||claim/list--all/S_A", f.SA, 2, core.R("", "--json", "list", "--all"), alpha[0].Mk(f, 1), claimReq("a2"))
 	add("reader||compact||new-task/list--all/S_A", f.SA, 2, core.R("", "--json", "list", "--all"), alpha[14].Mk(f, 1), alpha[0].Mk(f, 2))
+	// weaker assumption about the kernel, checked without a scheduler: if a writer's single write(2) became visible to a
+	// reader piecewise, the reader would see the old log plus a prefix of the appended batch. For every writer, every
+	// prefix ending at a line boundary of its batch and a few cuts inside a line: every reader must still answer (exit 0).
+	// (What it shows then is a partly applied command - that the write is indivisible is the stated assumption of the
+	// scheduled part; here only "readers never fail" is asserted.)
+	st.PerScenario["partial-visibility-phase"] = c13PartialVisibility(env, f, alpha)
 	exploreMany(env, st, "C13", jobs, 4)
 	finishSched(env, st, "a lock-free reader (list --json --all, show --json; the text views list --epic, list --all, show <epic> against 6 writers that change what they show; thorough: also --epics/--ready) against every writer of the C02 alphabet plus a >4 KiB multi-event append, on a small and a 140 KB store (multi-read scans), plus reader against two writers; every interleaving of the reader's steps (path stat, open, tail probe, each read chunk) with the writer's steps up to the preemption bound; oracle: the reader exits 0 and its output equals the same command's output on one of the store versions that existed between its invocation and its exit (snapshots after every scheduler step)")
+}
+
+func c13PartialVisibility(env *core.Env, f *concFix, alpha []c02Cmd) map[string]interface{} {
+	w0 := env.W0()
+	// a store in which prune takes an epic together with its children
+	fx := FixFrom(env, w0, f.SA, 300)
+	fx.Set(f.T3, map[string]interface{}{"state": "done"})
+	finished := fx.Store()
+	type job struct {
+		name  string
+		store core.Store
+		log   []byte
+	}
+	var jobs []job
+	for _, pre := range []struct {
+		name string
+		st   core.Store
+	}{{"S_A", f.SA}, {"S_A-with-E1-finished", finished}} {
+		for _, wcmd := range alpha {
+			pre.st.Materialize(w0.Proj)
+			r := wcmd.Mk(f, 1)
+			r.Cwd = w0.Proj
+			r.RandBase = 700
+			if res := w0.Run(r); res.Exit != 0 {
+				continue
+			}
+			after, _ := core.Snapshot(w0.Proj)
+			old, neu := pre.st.Log(), after.Log()
+			if !bytes.HasPrefix(neu, old) || len(neu) == len(old) {
+				continue // a rewrite (rename is atomic) or nothing written
+			}
+			batch := neu[len(old):]
+			cuts := map[int]bool{1: true, len(batch) / 2: true, len(batch) - 1: true}
+			for i, b := range batch {
+				if b == '\n' && i+1 < len(batch) {
+					cuts[i] = true
+					cuts[i+1] = true
+				}
+			}
+			for c := range cuts {
+				if c > 0 && c < len(batch) {
+					jobs = append(jobs, job{fmt.Sprintf("%s/%s first %d of %d bytes", pre.name, wcmd.Name, c, len(batch)), pre.st, append(append([]byte{}, old...), batch[:c]...)})
+				}
+			}
+		}
+	}
+	readers := []core.Req{core.R("", "--json", "list", "--all"), core.R("", "--json", "list", "--ready"), core.R("", "--json", "list", "--epics"), core.R("", "--json", "show", f.T1), core.R("", "--json", "show", f.E1),
+		core.R("", "list", "--all").In(""), core.R("", "list").In(""), core.R("", "list", "--ready").In(""), core.R("", "list", "--epic", f.E1).In(""), core.R("", "show", f.E1).In("")}
+	var reads int64
+	env.Parallel(len(jobs), func(w *core.Worker, i int) {
+		j := jobs[i]
+		st := j.store.WithLog(j.log)
+		st.Materialize(w.Proj)
+		for _, rd := range readers {
+			req := rd
+			req.Cwd = w.Proj
+			res := w.Run(req)
+			atomic.AddInt64(&reads, 1)
+			if res.Exit != 0 || res.Panic || res.Timeout {
+				if e := string(res.Err); res.Exit == 1 && !res.Panic && !res.Timeout && (strings.Contains(e, "unknown") || strings.Contains(e, "pruned") || strings.Contains(e, "no such epic")) {
+					continue // show / list --epic of an item that the visible prefix has already pruned: a clean refusal, not a failed read
+				}
+				report(env, "C13 kind=reader-fails-on-a-partly-visible-write reader="+strings.Join(rd.Args, "_"), j.name+": `"+rd.Shell()+"` -> "+res.String(),
+					mkTrace(st, j.name, []core.Req{rd}, Assert{Kind: "exit_nonzero", Step: 1}))
+			}
+		}
+	})
+	return map[string]interface{}{"partly_visible_logs": len(jobs), "reads": reads,
+		"rule": "old log + every line-boundary prefix (and 3 cuts inside a line) of every appending writer's batch, on S_A and on a store whose prune takes an epic with its child; 10 readers (5 JSON, 5 text) must exit 0"}
 }
